@@ -2,7 +2,9 @@
 from checks_common import three
 
 CHECK = {
-    "runs": three("c16_execqueue", [], scales=(0.5, 0.5, 1.0)),
+    # a quick run takes 10-60 s; an item stranded by a broken queue can leave a process spinning without a verdict
+    # (the recovery thread keeps the progress counter alive): cut it off after 400 s (inconclusive for that variant)
+    "runs": three("c16_execqueue", [], scales=(0.5, 0.5, 1.0), timeout_quick=400),
     "level": "fault_enumeration",
     "design_ref": "DESIGN.md §5 C16",
     "technique": "multi-producer stress of the real ConcurrentExecutionQueue over Inplace/ThreadPool/NewThread executors "
